@@ -3,6 +3,7 @@ import RedisVerif.Lemmas.Conn
 import RedisVerif.Lemmas.ConnWrite
 import RedisVerif.Lemmas.ConnSim
 import RedisVerif.Lemmas.ConnJunk
+import RedisVerif.Lemmas.ConnFix
 
 /-
   C04 — pipelining: exactly one reply per command, in order, however the bytes arrive.
@@ -687,6 +688,179 @@ example : (runW cfg14 refExec ExSt.init [.accept 6, .fail] [stream [cmdSetKV, cm
     [43, 79, 75, 13, 10, 36] ∧
     (runW cfg14 refExec ExSt.init [.accept 6, .accept 0] [stream [cmdSetKV, cmdGetK, cmdPing]] none).ended = true := by
   decide
+
+/-! ## 6. the PREPARED FIX of the recognisers (`fixes-conn-s4`: HEADER_LEN = 13, LF and UTF-8 tests, an
+incomplete frame is left to the generic parser, collected commands are always executed, the gate
+asks the ACL) — `Config.repaired = true`, `headerLen = 13`
+
+The six known findings `C04:malformed-{accepted,silence}:*-lookalike`, `C04:malformed-stall:*-lookalike-prefix`
+have ONE cause (the recognisers index a 13-byte header with 14); changing the constant alone is
+refuted above (`header13_counterexample`).  What follows is proved about the model of the REPAIRED
+code (the model follows the source through `VERIF_C04_INCOMPLETE` / `VERIF_C04_HEADER_LEN`). -/
+
+/-- the repaired code with the default thresholds -/
+def cfgR : Config := { cfg14 with headerLen := 13, nameGuard := true, repaired := true }
+
+example : Repaired13 cfgR := ⟨rfl, rfl, rfl, by decide⟩
+
+/-- THE LOOK-ALIKE CLASS IS EMPTY: whatever a repaired recogniser takes — in any buffer that can
+    exist — is a frame that the generic decoder decodes to the very same command (name as written,
+    key, value), consuming the very same bytes; and a repaired recogniser never answers "need more
+    data" (the cause of the stalls), it takes a frame or leaves it to the decoder -/
+theorem repaired_recognisers_sound (env : Env) (hd : 2 ≤ env.depth) (buf : Bytes) (hs : Small buf) :
+    (∀ key total, recogGetR 13 buf = .get key total →
+      (parse1 env buf).out = .ok (getFrameN buf key) total ∧ validUtf8 key = true) ∧
+    (∀ key val total, recogSetR 13 buf = .set key val total →
+      (parse1 env buf).out = .ok (setFrameN buf key val) total ∧ validUtf8 key = true) ∧
+    ((∃ k t, recogGetR 13 buf = .get k t) ∨ recogGetR 13 buf = .notFast) ∧
+    ((∃ k v t, recogSetR 13 buf = .set k v t) ∨ recogSetR 13 buf = .notFast) :=
+  ⟨fun key total h => let r := recogGetR_sound env hd buf key total hs h; ⟨r.1, r.2.2.2⟩,
+   fun key val total h => let r := recogSetR_sound env hd buf key val total hs h; ⟨r.1, r.2.2.2⟩,
+   recogGetR_cases 13 buf, recogSetR_cases 13 buf⟩
+
+/-- bytes a recogniser takes (0 = it declines / waits) -/
+def took : Recog → Nat
+  | .get _ t => t
+  | .set _ _ t => t
+  | _ => 0
+
+/-- non-vacuity: a well-formed `GET k` / `get k` / `SET k v` IS taken (the paths are alive), a key that is
+    not UTF-8 is left to the generic path, the old look-alike and a lone CR in the length line are declined -/
+example : took (recogGetR 13 (encCmd cmdGetK)) = 20 ∧ took (recogGetR 13 (encCmd [[103, 101, 116], [107]])) = 20 ∧
+    took (recogSetR 13 (encCmd cmdSetKV)) = 27 ∧ took (recogGetR 13 (encCmd [[71, 69, 84], [255]])) = 0 ∧
+    took (recogGetR 13 getLookalike) = 0 ∧
+    took (recogGetR 13 [42, 50, 13, 10, 36, 51, 13, 10, 71, 69, 84, 13, 10, 36, 49, 13, 88, 107, 13, 10]) = 0 := by decide
+
+/-- TRANSPARENCY: for EVERY byte stream (well-formed or not) in EVERY segmentation, under every
+    batching configuration, the repaired connection does exactly what it does with the recognisers
+    switched off (`cfg.off`: a user without unrestricted keys — the generic decoder carries
+    everything): the same frames in the same order, the same protocol errors, the same end — only
+    the label of the path that carried a frame differs.  Every statement about the generic loop is
+    a statement about the repaired connection. -/
+theorem repaired_transparent (cfg : Config) (hR : Repaired13 cfg) (hmax : cfg.maxBuffer < 72057594037927936)
+    (segs : List Bytes) :
+    (run cfg segs).map Action.noPath = (run cfg.off segs).map Action.noPath :=
+  run_transparent cfg hR hmax segs
+
+/-- full statement for the repaired code: every segmentation of every well-formed pipeline, under
+    every batching configuration, executes every command exactly once, in order — on whichever path -/
+def C04_segmentation_independent_repaired (h : Nat) : Prop :=
+  ∀ (cfg : Config), cfg.headerLen = h → cfg.repaired = true → cfg.nameGuard = true → cfg.codec = codec1 → 2 ≤ cfg.env.depth →
+  cfg.maxBuffer < 72057594037927936 →
+  ∀ (cmds : List Cmd) (segs : List Bytes), segs.flatten = stream cmds →
+    Small (stream cmds) → (stream cmds).length ≤ cfg.maxBuffer →
+    (run cfg segs).map Action.noPath = execAll cmds
+
+theorem segmentation_independent_repaired : C04_segmentation_independent_repaired 13 := by
+  intro cfg h13 hrep hg hc hd hmb cmds segs h hs hmax
+  rw [run_transparent cfg ⟨hrep, h13, hc, hd⟩ hmb segs,
+    run_wf cfg.off (DeadCfg.off cfg hrep) hc (by have : cfg.off.env = cfg.env := rfl; rw [this]; omega) cmds segs h hs hmax
+      (fun _ _ => ⟨hd, Or.inl hg⟩), noPath_execAll]
+
+/-- exactly one reply per command, each equal to the reply the command gets when every command
+    arrives alone, in its own segment, under any other repaired configuration -/
+theorem one_reply_per_command_repaired (cfg cfg' : Config) (hR : Repaired13 cfg) (hR' : Repaired13 cfg')
+    (hg : cfg.nameGuard = true) (hg' : cfg'.nameGuard = true)
+    (hmb : cfg.maxBuffer < 72057594037927936) (hmb' : cfg'.maxBuffer < 72057594037927936)
+    (cmds : List Cmd) (segs : List Bytes) (h : segs.flatten = stream cmds)
+    (hs : Small (stream cmds)) (hmax : (stream cmds).length ≤ cfg.maxBuffer) (hmax' : (stream cmds).length ≤ cfg'.maxBuffer)
+    (s : ExSt) :
+    (replies ExSt.init (run cfg segs)).length = cmds.length ∧
+    replies s (run cfg segs) = replies s (run cfg' (cmds.map encCmd)) := by
+  have e1 := segmentation_independent_repaired cfg hR.2.1 hR.1 hg hR.2.2.1 hR.2.2.2 hmb cmds segs h hs hmax
+  have e2 := segmentation_independent_repaired cfg' hR'.2.1 hR'.1 hg' hR'.2.2.1 hR'.2.2.2 hmb' cmds (cmds.map encCmd) rfl hs hmax'
+  refine ⟨?_, ?_⟩
+  · rw [← replies_noPath, e1]; exact replies_execAll_length _ _
+  · rw [← replies_noPath (run cfg segs), ← replies_noPath (run cfg' _), e1, e2]
+
+/-- FULL statement of the second sentence of the property for the repaired code — no restriction to
+    frames that do not begin with `*` any more: ANY bytes after a well-formed pipeline, in any
+    segmentation: no panic, no frame consumed without a reply, the replies to the pipeline
+    untouched; and when the decoder rejects the trailing frame it is answered with
+    `-ERR protocol error` right after the replies to the commands before it -/
+def C04_malformed_is_error_repaired (cfg : Config) : Prop :=
+  ∀ (cmds : List Cmd) (junk : Bytes) (segs : List Bytes), segs.flatten = stream cmds ++ junk →
+    Small (stream cmds ++ junk) → (stream cmds ++ junk).length ≤ cfg.maxBuffer → (∀ c ∈ cmds, CmdOK cfg c) →
+    hasCrash (run cfg segs) = false ∧ hasDropped (run cfg segs) = false ∧
+    ((run cfg segs).map Action.noPath).take cmds.length = execAll cmds ∧
+    (∀ e, (parse1 cfg.env junk).out = .error e →
+      ∃ tail, (run cfg segs).map Action.noPath = execAll cmds ++ Action.protoErr :: tail)
+
+theorem hasDropped_of_noDropped : ∀ (acts : List Action), (∀ a ∈ acts, a.isDropped = false) → hasDropped acts = false := by
+  intro acts
+  induction acts with
+  | nil => intro _; rfl
+  | cons a as ih =>
+    intro h
+    have ha := h a (by simp)
+    have := ih (fun x hx => h x (by simp [hx]))
+    cases a <;> simp_all [hasDropped, Action.isDropped]
+
+theorem malformed_is_error_repaired (cfg : Config) (hR : Repaired13 cfg) (hck : cfg.checked = true)
+    (hg : cfg.nameGuard = true) (hd : maxNesting + 1 ≤ cfg.env.depth) (hmb : cfg.maxBuffer < 72057594037927936) :
+    C04_malformed_is_error_repaired cfg := by
+  intro cmds junk segs h hs hmax hok
+  have htr := run_transparent cfg hR hmb segs
+  have hokoff : ∀ c ∈ cmds, CmdOK cfg.off c := hok
+  obtain ⟨tail, ht⟩ := run_junk cfg.off (DeadCfg.off cfg hR.1) hR.2.2.1 cmds junk segs h hs hmax hokoff
+  refine ⟨run_no_crash cfg hck hg hR.2.2.1 hd hmb segs,
+    hasDropped_of_noDropped _ (run_noDropped cfg hR.1 segs), ?_, ?_⟩
+  · rw [htr, ht, List.map_append, noPath_execAll]
+    have : (execAll cmds).length = cmds.length := by simp [execAll]
+    rw [← this, List.take_left']
+    rfl
+  · intro e hrej
+    obtain ⟨tail', ht'⟩ := run_junk_error cfg.off (DeadCfg.off cfg hR.1) hR.2.2.1
+      (by have : cfg.off.env = cfg.env := rfl; rw [this]; unfold maxNesting at hd; omega)
+      cmds junk segs h (Or.inr ⟨hR.1, rfl⟩) e hrej hs hmax hokoff
+    refine ⟨tail'.map Action.noPath, ?_⟩
+    rw [htr, ht', List.map_append, noPath_execAll]
+    rfl
+
+def firstIsProtoErr : List Action → Bool
+  | .protoErr :: _ => true
+  | _ => false
+
+/-- non-vacuity, on the witnesses of the six known findings: under the repaired configuration the
+    look-alike is answered with a protocol error — alone, in a buffer above `min_pipeline_buffer`
+    with three PINGs behind it (four replies for four frames, nothing dropped; the handler clears
+    its buffer at a protocol error, so the PINGs of the same read go with it: one reply),
+    and as a prefix after a PING (no stall) — and the well-formed `GET k` that `HEADER_LEN = 13`
+    alone would drop below `batch_threshold` (`header13_counterexample`) is answered -/
+example : firstIsProtoErr (run cfgR [getLookalike]) = true ∧ replyCount (run cfgR [getLookalike]) = 1 ∧
+    hasDropped (run cfgR [getLookalike ++ stream [cmdPing, cmdPing, cmdPing]]) = false ∧
+    firstIsProtoErr (run cfgR [getLookalike ++ stream [cmdPing, cmdPing, cmdPing]]) = true ∧
+    replyCount (run cfgR [stream [cmdPing], getLookalike.take 15 ++ [52, 13, 10, 97, 98]]) = 2 ∧
+    replyCount (run cfgR [stream [cmdGetK, cmdPing, cmdPing, cmdPing]]) = 4 ∧
+    hasDropped (run cfgR [stream [cmdGetK, cmdPing, cmdPing, cmdPing]]) = false := by decide
+
+/-- the bytes on the wire, repaired code: for every executor that answers a frame the same on every
+    path (`get_direct` IS GET, `set_direct` IS plain SET: C03's `execVia_refines`), every well-formed
+    pipeline, every segmentation of the reads and of the writes, the client receives exactly the
+    concatenation of the encoded replies, in command order -/
+theorem bytes_written_repaired (σ : Type) (ex : Exec σ) (s0 : σ) (hex : ∀ s f p, ex s f p = ex s f .generic)
+    (cfg : Config) (hR : Repaired13 cfg) (hck : cfg.checked = true) (hg : cfg.nameGuard = true)
+    (hd : maxNesting + 1 ≤ cfg.env.depth) (hmb : cfg.maxBuffer < 72057594037927936)
+    (cmds : List Cmd) (segs : List Bytes) (script : List WEv) (h : segs.flatten = stream cmds)
+    (hs : Small (stream cmds)) (hmax : (stream cmds).length ≤ cfg.maxBuffer) (hnf : NoFail script = true) :
+    (runW cfg ex s0 script segs none).out = replyBytes ex s0 (cmds.map cmdFrame) := by
+  have hrun := segmentation_independent_repaired cfg hR.2.1 hR.1 hg hR.2.2.1 hR.2.2.2 hmb cmds segs h hs hmax
+  have hnc := run_no_crash cfg hck hg hR.2.2.1 hd hmb segs
+  have henc : ∀ (acts : List Action) (s : σ), encActs ex s (acts.map Action.noPath) = encActs ex s acts := by
+    intro acts
+    induction acts with
+    | nil => intro s; rfl
+    | cons a as ih =>
+      intro s
+      cases a with
+      | exec f p => simp only [List.map_cons, Action.noPath, encActs, ih, hex s f p]
+      | dropped f => simp only [List.map_cons, Action.noPath, encActs, ih]
+      | protoErr => simp only [List.map_cons, Action.noPath, encActs, ih]
+      | overflow => simp only [List.map_cons, Action.noPath, encActs, ih]
+      | crash => simp only [List.map_cons, Action.noPath, encActs]
+  rw [runW_eq cfg ex s0 script segs hnf hnc, ← henc, hrun, encActs_execAll]
+
+example : ∀ (s : ExSt) (f : Val) (p : Path), refExec s f p = refExec s f .generic := fun _ _ _ => rfl
 
 /-! ## 5. the MIRROR the repository's own connection tests use (Model/ConnSim.lean)
 
